@@ -50,6 +50,7 @@ pub(crate) struct ConnInfo {
     pub(crate) has_quit_sender: bool,
     pub(crate) has_ping_sender: bool,
     pub(crate) pong_pending: bool,
+    pub(crate) kill_pending: bool,
 }
 
 #[derive(Default)]
@@ -127,8 +128,39 @@ pub(crate) fn pw_checks() -> u64 {
     CTL.with(|c| c.borrow().pw_checks)
 }
 
-fn make_info(cs: &ConnState) -> ConnInfo {
+// Non-destructive peek at the KILL notice: a delivered value is moved into a
+// fresh, already-completed channel, which the select! branch then sees unchanged.
+fn peek_kill(cs: &mut ConnState) -> bool {
+    use futures::future::FusedFuture;
+    if cs.quit_receiver.is_terminated() {
+        return false;
+    }
+    let waker = futures::task::noop_waker_ref();
+    let mut cx = std::task::Context::from_waker(waker);
+    let r = {
+        let mut f = tokio::task::unconstrained(&mut cs.quit_receiver);
+        std::pin::Pin::new(&mut f).poll(&mut cx)
+    };
+    match r {
+        std::task::Poll::Ready(Ok(v)) => {
+            let (tx, rx) = oneshot::channel();
+            let _ = tx.send(v);
+            cs.quit_receiver = rx.fuse();
+            true
+        }
+        std::task::Poll::Ready(Err(_)) => {
+            let (tx, rx) = oneshot::channel::<(String, String)>();
+            drop(tx);
+            cs.quit_receiver = rx.fuse();
+            false
+        }
+        std::task::Poll::Pending => false,
+    }
+}
+
+fn make_info(cs: &ConnState, kill_pending: bool) -> ConnInfo {
     ConnInfo {
+        kill_pending,
         nick: cs.user_state.nick.clone(),
         name: cs.user_state.name.clone(),
         realname: cs.user_state.realname.clone(),
@@ -176,7 +208,8 @@ pub(crate) async fn gate(cs: &mut ConnState) -> Option<Guard> {
         CTL.with(|c| {
             let mut c = c.borrow_mut();
             let slot = c.cur;
-            c.info[slot] = Some(make_info(cs));
+            let kp = peek_kill(cs);
+            c.info[slot] = Some(make_info(cs, kp));
             if let Some(d) = c.directive[slot].take() {
                 c.at_gate[slot] = false;
                 std::task::Poll::Ready((slot, d))
@@ -254,7 +287,9 @@ pub(crate) fn ungate(cs: &mut ConnState, g: Option<Guard>) {
                 if let Some(d) = g.directive {
                     c.consumed[g.slot][d as usize] += 1;
                 }
-                c.info[g.slot] = Some(make_info(cs));
+                let kp = c.info[g.slot].as_ref().map_or(false, |i| i.kill_pending)
+                    && g.directive != Some(Directive::Kill);
+                c.info[g.slot] = Some(make_info(cs, kp));
             }
         });
     }
